@@ -253,17 +253,17 @@ Proof. vm_compute. reflexivity. Qed.
 Print Assumptions C10_same_type_tests.
 
 (* ... means, for EVERY container with ANY number of placeholders that ParameterValues accepts: either _set_bound
-   refuses the object kept by the ParameterValues, or the four walks take the same branch for it - the branch
-   the declaration means (scalar for "_", vector of n components for n placeholders in a container), and a scalar
-   only when there is exactly one placeholder.  The four type tests are the same predicate on everything that
-   reaches them. *)
+   refuses the object kept by the ParameterValues, or _set_bound and update_processor take the branch the
+   declaration means for it (scalar for "_", vector of n components for n placeholders in a container; a scalar
+   only when there is exactly one placeholder) and convert_to_parameters and the count of __init__ a branch of that
+   width.  The type tests of the four walks are the same predicate on everything that reaches them. *)
 Theorem C10_containers_classified_alike :
   forall v : pval, pv_accepts v = true ->
     let w := norm (kd_norm src_kinds) v in
     classify (kd_sb src_kinds) w = ORaise \/
-    (classify (kd_sb src_kinds) w = spec_outcome v /\ classify (kd_cv src_kinds) w = spec_outcome v /\
-     classify (kd_up src_kinds) w = spec_outcome v /\
-     (forall g, kd_init src_kinds = Some g -> classify g w = spec_outcome v) /\
+    (classify (kd_sb src_kinds) w = spec_outcome v /\ classify (kd_up src_kinds) w = spec_outcome v /\
+     owidth (classify (kd_cv src_kinds) w) (snd v) = owidth (spec_outcome v) (snd v) /\
+     (forall g, kd_init src_kinds = Some g -> owidth (classify g w) (snd v) = owidth (spec_outcome v) (snd v)) /\
      (spec_outcome v = OScalar -> snd v = 1)).
 Proof.
   intros v. apply agree_at_meaning. apply kinds_ok_all. vm_compute. reflexivity.
@@ -278,22 +278,22 @@ Theorem C10_yaml_containers_accepted :
 Proof. intros A l. apply views_canonical. vm_compute. reflexivity. Qed.
 Print Assumptions C10_yaml_containers_accepted.
 
-(* for every declaration - any list of variables, each in any container - that the constructor accepts: the four
-   walks of the source see the SAME list of variables, the one the declaration means, and are the hand-written
-   walks of Model/Decision.v on it; the number of parameters counted by __init__ (if the source counts) is the
-   total width *)
+(* for every declaration - any list of variables, each in any container - that the constructor accepts: _set_bound
+   and update_processor see the SAME list of variables, the one the declaration means; convert_to_parameters sees
+   variables of the same widths and flags; the walks of the source are the hand-written walks of Model/Decision.v
+   on the declared variables; the number of parameters counted by __init__ (if the source counts) is the total
+   width *)
 Theorem C10_containers_same_variables :
   forall (A : Type) (flog fexp : A -> A) (logdom : A -> bool) (l : list (@dvar A)) lb ub,
     k_bounds flog logdom src_kinds src_desc l = Some (lb, ub) ->
     let vs := map spec_var l in
     views (kd_norm src_kinds) (kd_sb src_kinds) l = Some vs /\
-    views (kd_norm src_kinds) (kd_cv src_kinds) l = Some vs /\
     views (kd_norm src_kinds) (kd_up src_kinds) l = Some vs /\
-    (forall g, kd_init src_kinds = Some g -> views (kd_norm src_kinds) g l = Some vs) /\
+    (exists cs, views (kd_norm src_kinds) (kd_cv src_kinds) l = Some cs /\ Forall2 same_wl cs vs) /\
     bounds_walk flog logdom vs = Some (lb, ub) /\
     (forall x, k_convert fexp src_kinds src_desc l x = Some (convert_walk fexp vs x)) /\
     (forall p, k_assign src_kinds src_desc l p = assign_walk vs p) /\
-    (k_count src_kinds l = None \/ k_count src_kinds l = Some (total vs)) /\
+    (kd_init src_kinds = None \/ k_count src_kinds l = Some (total vs)) /\
     Forall2 (fun dv v => width v = decl_width dv) l vs.
 Proof. intros A flog fexp logdom l lb ub. apply k_walks_are_model; vm_compute; reflexivity. Qed.
 Print Assumptions C10_containers_same_variables.
@@ -444,12 +444,12 @@ Proof. vm_compute. repeat split; reflexivity. Qed.
 
 (* ---------------------------------------------------------------------------- containers *)
 
-(* a logarithmic vector declared with a TUPLE of three placeholders before a linear scalar, then a vector declared
-   with the string "__": accepted, 6 components, the scalar reads component 3 *)
+(* a declaration as YAML produces it (a logarithmic list of three placeholders before a linear scalar, then a list of
+   two): accepted by the walks of the source, 6 components, the scalar reads component 3 *)
 Definition ex_dvars : list (@dvar sym) :=
-  [ (mkVar "v"%string None true (Shared (Raw 1) (Raw 100)), (KTuple, 3));
+  [ (mkVar "v"%string None true (Shared (Raw 1) (Raw 100)), (KList, 3));
     (mkVar "s"%string None false (Shared (Raw 1) (Raw 4)), (KUnd, 1));
-    (mkVar "w"%string None false (Shared (Raw 0) (Raw 1)), (KStr, 2)) ].
+    (mkVar "w"%string None false (Shared (Raw 0) (Raw 1)), (KList, 2)) ].
 
 Example ex_containers_accepted :
   k_bounds s_log s_dom src_kinds src_desc ex_dvars
@@ -459,6 +459,25 @@ Example ex_containers_accepted :
   k_assign src_kinds src_desc ex_dvars [Ten 0; Ten 1; Ten 2; Raw 3; Raw (1 # 2); Raw 1]
   = Some [ ("v"%string, AVector [Ten 0; Ten 1; Ten 2]); ("s"%string, AScalar (Raw 3));
            ("w"%string, AVector [Raw (1 # 2); Raw 1]) ].
+Proof. vm_compute. repeat split; reflexivity. Qed.
+
+(* the same with the vectors handed over in a TUPLE and in the string "__" (the tree as repaired: convert_values
+   turns both into lists), and with np.array(["_"]) - which equals "_" - as a scalar *)
+Example ex_other_containers_accepted :
+  let l := [ (mkVar "v"%string None true (Shared (Raw 1) (Raw 100)), (KTuple, 3));
+             (mkVar "s"%string None false (Shared (Raw 1) (Raw 4)), (KArr, 1));
+             (mkVar "w"%string None false (Shared (Raw 0) (Raw 1)), (KStr, 2)) ] in
+  k_bounds s_log s_dom kinds_as_coded desc_as_coded l
+  = Some ([Log 1; Log 1; Log 1; Raw 1; Raw 0; Raw 0], [Log 100; Log 100; Log 100; Raw 4; Raw 1; Raw 1]) /\
+  k_assign kinds_as_coded desc_as_coded l [Ten 0; Ten 1; Ten 2; Raw 3; Raw (1 # 2); Raw 1]
+  = Some [ ("v"%string, AVector [Ten 0; Ten 1; Ten 2]); ("s"%string, AScalar (Raw 3));
+           ("w"%string, AVector [Raw (1 # 2); Raw 1]) ] /\
+  k_count kinds_as_coded l = Some 6 /\
+  (* a generator and an array of two placeholders never get past ParameterValues *)
+  k_bounds s_log s_dom kinds_as_coded desc_as_coded
+    [ (mkVar "g"%string None false (Shared (Raw 0) (Raw 1)), (KIter, 2)) ] = None /\
+  k_bounds s_log s_dom kinds_as_coded desc_as_coded
+    [ (mkVar "a"%string None false (Shared (Raw 0) (Raw 1)), (KArr, 2)) ] = None.
 Proof. vm_compute. repeat split; reflexivity. Qed.
 
 (* C10-F2 (repaired): _set_bound tested isinstance(var.values, Sequence) where the three other walks test
@@ -492,6 +511,9 @@ Example ex_kept_tuple :
                  (kd_up kinds_as_coded)) = false /\
   kinds_ok (mkKd norm_keeps_tuples (kd_sb kinds_as_coded) (kd_init kinds_as_coded) (kd_cv kinds_as_coded)
                  (kd_up kinds_as_coded)) = true /\
+  (* a convert_to_parameters that takes len("_") = 1 components for "_" through its list branch is the same walk *)
+  kinds_ok (mkKd (kd_norm kinds_as_coded) (kd_sb kinds_as_coded) (kd_init kinds_as_coded)
+                 (GIf (TInst [CList; CStr]) (GLeaf OVector) (GLeaf OScalar)) (kd_up kinds_as_coded)) = true /\
   (* and four walks that all accept lists and tuples are accepted too *)
   let t := TInst [CList; CTuple] in
   kinds_ok (mkKd norm_keeps_tuples (GIf TEq (GLeaf OScalar) (GIf (TAnd t TAllPh) (GLeaf OVector) (GLeaf ORaise)))
